@@ -319,6 +319,10 @@ class Interp:
         last = fname.split(".")[-1] if fname else (c.func.attr if isinstance(c.func, ast.Attribute) else "")
         ak = [self.kind(a) for a in c.args]
         kk = {k.arg: self.kind(k.value) for k in c.keywords if k.arg}
+        for a, k in zip(c.args, ak):
+            if isinstance(a, ast.BinOp) and isinstance(a.op, ast.Mult) and any(
+                    isinstance(x, ast.Attribute) and x.attr == "frequency" for x in (a.left, a.right)) and last not in ("int",):
+                self.ex.casts.append((self.fn, c, k if last in ("floor",) else "Top:" + (last or "?"), self.shots_none))
         if last == "Fraction":
             self.ex.fractions.append((self.fn, c, self.shots_none))
             if len(ak) == 2:
